@@ -51,6 +51,11 @@ type stubServer struct {
 	storm   bool
 	log     []reqRec
 	handler func(n int, path string, rawQuery string, req *http.Request) srvResp
+	// stallFactory, if set, builds the body of a stalled response (the scheduler-aware harness provides one)
+	stallFactory func(req *http.Request) interface {
+		Read([]byte) (int, error)
+		Close() error
+	}
 }
 
 type stallBody struct{ ctx context.Context }
@@ -92,7 +97,11 @@ func (s *stubServer) RoundTrip(req *http.Request) (*http.Response, error) {
 		resp.Header.Set("Content-Type", r.CT)
 	}
 	if r.Stall {
-		resp.Body = &stallBody{ctx: req.Context()}
+		if s.stallFactory != nil {
+			resp.Body = s.stallFactory(req)
+		} else {
+			resp.Body = &stallBody{ctx: req.Context()}
+		}
 		return resp, nil
 	}
 	body := r.Body
